@@ -14,15 +14,16 @@ HEX_A = hashlib.sha256(b"a").hexdigest()
 ATOMS: List[Dict[str, Any]] = []
 
 
-def _a(id_: str, py: Any, canon: List[str], core=False, tiny=False, key=False, sup=True):
-    ATOMS.append({"id": id_, "py": py, "c": canon, "core": core, "tiny": tiny, "key": key, "sup": sup})
+def _a(id_: str, py: Any, canon: List[str], core=False, tiny=False, key=False, sup=True, key1=False):
+    # key: used as dict key (also in two-entry dicts); key1: used as the key of one-entry dicts only
+    ATOMS.append({"id": id_, "py": py, "c": canon, "core": core, "tiny": tiny, "key": key, "sup": sup, "key1": key1 or key})
 
 
 def num(s: str) -> List[str]:
     return ["num", s]
 
 
-_a("none", None, ["none"], core=True, tiny=True)
+_a("none", None, ["none"], core=True, tiny=True, key1=True)
 _a("true", True, num("1"), core=True)
 _a("false", False, num("0"))
 _a("i0", 0, num("0"), core=True, tiny=True, key=True)
@@ -43,7 +44,7 @@ _a("f0", 0.0, num("0"), core=True)
 _a("f-0", -0.0, num("0"))
 _a("f1", 1.0, num("1"))
 _a("f0.1", 0.1, num("0.1"), core=True)
-_a("f0.5", 0.5, num("0.5"))
+_a("f0.5", 0.5, num("0.5"), key1=True)
 _a("fnan", float("nan"), num("nan"))
 _a("finf", float("inf"), num("inf"))
 _a("f-inf", float("-inf"), num("-inf"))
@@ -52,9 +53,11 @@ _a("s_empty", "", ["str", ""], core=True, tiny=True)
 _a("s_a", "a", ["str", "a"], core=True, tiny=True, key=True)
 _a("s_b", "b", ["str", "b"], key=True)
 _a("s_pipe", "|", ["str", "|"], core=True)
-_a("s_0", "0", ["str", "0"])
-_a("s_1", "1", ["str", "1"])
-_a("s_None", "None", ["str", "None"])
+_a("s_0", "0", ["str", "0"], key1=True)
+_a("s_1", "1", ["str", "1"], key1=True)
+_a("s_0.5", "0.5", ["str", "0.5"], key1=True)
+_a("s_tuple12", "(1, 2)", ["str", "(1, 2)"], key1=True)
+_a("s_None", "None", ["str", "None"], key1=True)
 _a("s_ddsnone", "__DDS_NONE__", ["str", "__DDS_NONE__"])
 _a("s_none2", "__none__", ["str", "__none__"])
 _a("s_brackets", "[]", ["str", "[]"])
@@ -63,7 +66,7 @@ _a("s_a_pipe_a", "a|a", ["str", "a|a"])
 _a("s_unicode", "ü中", ["str", "u-umlaut-zhong"])
 _a("s_True", "True", ["str", "True"])
 _D = datetime.date(2020, 1, 2)
-_a("date", _D, ["str", repr(_D)], core=True)
+_a("date", _D, ["str", repr(_D)], core=True, key1=True)
 _a("s_date", repr(_D), ["str", repr(_D)])
 _DT = datetime.datetime(2020, 1, 2, 3, 4, 5)
 _a("datetime", _DT, ["str", repr(_DT)])
@@ -77,7 +80,7 @@ _a("s_path", str(_P), ["str", str(_P)])
 
 
 # unsupported types: hashing must end with the coded error TYPE_NOT_SUPPORTED, also when nested
-_a("u_bytes", b"raw", ["unsupported", "bytes"], core=True, sup=False)
+_a("u_bytes", b"raw", ["unsupported", "bytes"], core=True, sup=False, key1=True)
 _a("u_set", frozenset([1]), ["unsupported", "set"], sup=False)
 _a("u_complex", 1j, ["unsupported", "complex"], sup=False)
 _a("u_object", object, ["unsupported", "type"], sup=False)
@@ -92,7 +95,7 @@ ARG_IDS = ["none", "i0", "i1", "true", "s_empty", "s_a"]
 
 
 def module(mode: str, depth: int = 1, chunk: int = 300, max_params: int = 2) -> str:
-    atoms = [Rec(id=a["id"], c=a["c"], core=a["core"], tiny=a["tiny"], key=a["key"], sup=a["sup"]) for a in ATOMS]
+    atoms = [Rec(id=a["id"], c=a["c"], core=a["core"], tiny=a["tiny"], key=a["key"], key1=a["key1"], sup=a["sup"]) for a in ATOMS]
     return "\n".join([
         "---- MODULE ValuesConf ----",
         "Atoms == %s" % tlax(atoms),
